@@ -707,8 +707,13 @@ impl StreamsState {
                     continue;
                 };
                 if stream.pending.is_fully_acked() && !stream.fin_pending {
-                    // Stream data can't be acked in 0-RTT, so we must not have sent anything on
-                    // this stream
+                    // Stream data can't be acked in 0-RTT, so we must not have sent any data on
+                    // this stream. A FIN without data may have been sent, though, and was lost
+                    // along with everything else.
+                    if matches!(stream.state, SendState::DataSent { .. }) {
+                        stream.fin_pending = true;
+                        self.pending.push_pending(id, stream.priority);
+                    }
                     continue;
                 }
                 if !stream.is_pending() {
